@@ -1,30 +1,45 @@
-(* Property C10 (repetition-history core): draw by threefold repetition in search.
-   Model: Ink.Model.History (zobrist_history.rs), spec: Ink.Spec.Draws, proofs: Ink.Proofs.HistoryProofs. *)
+(* Property C10: draw rules in search -- threefold repetition (repetition-history core) and the fifty-move rule.
+   Model: Ink.Model.History (zobrist_history.rs after fix aca2b0d, Heuristic::evaluate), spec: Ink.Spec.Draws,
+   proofs: Ink.Proofs.HistoryProofs.  All statements hold for EVERY index (in particular every u16 index):
+   nothing panics any more (historic defect D16, see HistoryProofs.historic_D16). *)
 Require Import NArith List.
 Import ListNotations.
 Require Import Ink.Spec.Draws Ink.Model.History Ink.Proofs.HistoryProofs.
+Require Ink.Model.Tables Ink.Gen.Tables.
 Open Scope N_scope.
 
-(* array semantics of `set` followed by reads *)
-Theorem C10_hget_hset : forall h i v h' j,
-  hset h i v = Some h' -> hget h' j = if j =? i then v else hget h j.
+(* array semantics of `set` followed by reads, at any index; unwritten entries read as 0 *)
+Theorem C10_hget_hset : forall h i v j, hget (hset h i v) j = if j =? i then v else hget h j.
 Proof. exact hget_hset. Qed.
 Print Assumptions C10_hget_hset.
 
-Theorem C10_hset_panics_iff : forall h i v, hset h i v = None <-> 5000 <= i.
-Proof. exact hset_panics_iff. Qed.
-Print Assumptions C10_hset_panics_iff.
+Theorem C10_hget_hempty : forall j, hget hempty j = 0.
+Proof. exact hget_hempty. Qed.
+Print Assumptions C10_hget_hempty.
+
+(* totality: the loop never runs out of the model's fuel, the option-free count_repetitions IS its result *)
+Theorem C10_no_panic : forall h i hm, count_repetitions_fuel h i hm <> None.
+Proof. exact count_no_panic. Qed.
+Print Assumptions C10_no_panic.
+
+Theorem C10_fuel_suffices : forall h i hm, count_repetitions_fuel h i hm = Some (count_repetitions h i hm).
+Proof. exact count_repetitions_fuel_some. Qed.
+Print Assumptions C10_fuel_suffices.
+
+Theorem C10_fuel_irrelevant : forall h z mn fuel cur reps r,
+  count_loop fuel h z mn cur reps = Some r -> forall k, count_loop (fuel + k) h z mn cur reps = Some r.
+Proof. exact count_loop_fuel. Qed.
+Print Assumptions C10_fuel_irrelevant.
 
 (* the loop returns min 3 (1 + number of equal entries in the window), and 0 below index 4 *)
-Theorem C10_count_exact : forall h i hm, i < 5000 -> hm < 65536 ->
-  (4 <= i -> count_repetitions h i hm = Some (N.min 3 (1 + occurrences (hget h) i hm))) /\
-  (i < 4 -> count_repetitions h i hm = Some 0).
-Proof. exact count_exact_both. Qed.
+Theorem C10_count_exact : forall h i hm,
+  count_repetitions h i hm = if i <? 4 then 0 else N.min 3 (1 + occurrences (hget h) i hm).
+Proof. exact count_total. Qed.
 Print Assumptions C10_count_exact.
 
 (* `count_repetitions(..) >= 3` iff at least two entries of the window equal the entry at the start index *)
-Theorem C10_count_ge3_iff : forall h i hm c, i < 5000 ->
-  count_repetitions h i hm = Some c -> (3 <= c <-> 2 <= occurrences (hget h) i hm).
+Theorem C10_count_ge3_iff : forall h i hm,
+  3 <= count_repetitions h i hm <-> 2 <= occurrences (hget h) i hm.
 Proof. exact count_ge3_iff. Qed.
 Print Assumptions C10_count_ge3_iff.
 
@@ -34,41 +49,21 @@ Theorem C10_window_In : forall i hm j,
 Proof. exact window_In. Qed.
 Print Assumptions C10_window_In.
 
-Theorem C10_no_panic : forall h i hm, i < 5000 -> count_repetitions h i hm <> None.
-Proof. exact count_no_panic. Qed.
-Print Assumptions C10_no_panic.
-
-(* extra fuel never changes the loop result, and (C10_no_panic) the supplied fuel is never exhausted *)
-Theorem C10_fuel_irrelevant : forall h z mn fuel cur reps r,
-  count_loop fuel h z mn cur reps = Some r -> forall k, count_loop (fuel + k) h z mn cur reps = Some r.
-Proof. exact count_loop_fuel. Qed.
-Print Assumptions C10_fuel_irrelevant.
-
-(* D16 (known defect): a ply clock of 5000 or more is an out-of-bounds array access *)
-Theorem C10_panic_iff : forall h i hm, count_repetitions h i hm = None <-> 5000 <= i.
-Proof. exact count_panic_iff. Qed.
-Print Assumptions C10_panic_iff.
-
-Theorem C10_panics_at_5000 : exists h i hm, i < 65536 /\ hm < 65536 /\ count_repetitions h i hm = None.
-Proof. exact panics_at_5000. Qed.
-Print Assumptions C10_panics_at_5000.
-
-Theorem C10_total_on_u16_refuted :
-  ~ (forall h i hm, i < 65536 -> hm < 65536 -> count_repetitions h i hm <> None).
-Proof. exact total_refuted. Qed.
-Print Assumptions C10_total_on_u16_refuted.
-
 (* the caller's `halfmove_clock as u16` *)
 Theorem C10_u16_cast : forall h i hm, count_repetitions_u32 h i (65536 + hm) = count_repetitions_u32 h i hm.
 Proof. exact u16_cast. Qed.
 Print Assumptions C10_u16_cast.
 
-(* search_negamax: set, then the draw test *)
-Theorem C10_visit : forall h p key hm, p < 5000 ->
-  visit h p key hm =
-  Some ((p, key) :: h, (4 <=? p) && (2 <=? occurrences (hget ((p, key) :: h)) p (hm mod 65536)))%bool.
+(* search_negamax: set, then the draw test, which is skipped at the root *)
+Theorem C10_visit : forall h d p key hm,
+  visit h d p key hm =
+  ((p, key) :: h, (0 <? d) && (2 <=? occurrences (hget ((p, key) :: h)) p (hm mod 65536)))%bool.
 Proof. exact visit_spec. Qed.
 Print Assumptions C10_visit.
+
+Theorem C10_visit_root : forall h p key hm, snd (visit h 0 p key hm) = false.
+Proof. exact visit_root. Qed.
+Print Assumptions C10_visit_root.
 
 (* spec level: under the two chess facts, the code's window sees every earlier equal position within hm plies *)
 Theorem C10_window_all : forall k i hm, parity_ok k i hm -> no_dist2 k i hm ->
@@ -85,10 +80,27 @@ Print Assumptions C10_window_all_keys.
 
 (* game recorded by the position command at ply clocks base, base+1, ...: the draw test at the current
    position fires exactly when that position has occurred three times since the last irreversible move *)
-Theorem C10_history_threefold : forall keys h base h' hm c,
-  keys <> [] -> record_from h base keys = Some h' -> hm + 1 <= lenN keys ->
+Theorem C10_history_threefold : forall keys h base hm,
+  keys <> [] -> hm + 1 <= lenN keys -> hm < 65536 ->
   parity_ok_keys keys -> no_dist2_keys keys ->
-  count_repetitions_u32 h' (base + lenN keys - 1) hm = Some c ->
-  (3 <= c <-> threefold keys hm).
+  (3 <= count_repetitions_u32 (record_from h base keys) (base + lenN keys - 1) hm <-> threefold keys hm).
 Proof. exact history_threefold. Qed.
 Print Assumptions C10_history_threefold.
+
+(* fifty-move rule: a non-terminal position is valued as a fifty-move draw only once 100 plies have passed *)
+Theorem C10_fifty : forall half, fifty_branch 100 half true = true -> 100 <= half.
+Proof. exact fifty_100. Qed.
+Print Assumptions C10_fifty.
+
+Theorem C10_fifty_iff : forall half, fifty_branch 100 half true = true <-> 100 <= half.
+Proof. exact fifty_100_iff. Qed.
+Print Assumptions C10_fifty_iff.
+
+Theorem C10_fifty_never_early : forall half lm, half < 100 -> fifty_branch 100 half lm = false.
+Proof. exact fifty_never_early. Qed.
+Print Assumptions C10_fifty_never_early.
+
+(* regenerated obligation: the code's constant MAX_HALF_MOVES is 100 in the current tree *)
+Theorem C10_max_half_gen : Ink.Model.Tables.max_half_moves Ink.Gen.Tables.tables = 100.
+Proof. reflexivity. Qed.
+Print Assumptions C10_max_half_gen.
